@@ -86,6 +86,7 @@ func runShard(bin string, cs *checkSpec, shard int, checks int, seed int64, tier
 	res.failFile = base + ".fail.json"
 	res.journal = base + ".journal"
 	os.Remove(res.failFile)
+	os.Remove(res.failFile + ".pending")
 	os.Remove(res.journal)
 	args := []string{"-test.run", "^" + cs.Test + "$", "-test.v", "-test.timeout", "0",
 		"-rapid.checks", strconv.Itoa(checks), "-rapid.seed", strconv.FormatUint(rapidSeed(seed, shard, cs.Test), 10),
@@ -515,6 +516,11 @@ func main() {
 					// race reports carry their scenario in the fail file if the check wrote one
 					if fb, err := os.ReadFile(r.failFile); err == nil {
 						content = fb
+					}
+				}
+				if content == nil {
+					if pb, err := os.ReadFile(r.failFile + ".pending"); err == nil {
+						content = pb
 					}
 				}
 				if content == nil {
